@@ -1,6 +1,7 @@
 import Ruint.Lemmas.Conv
 import Ruint.Lemmas.GenConv
 import Ruint.Lemmas.GenFls
+import Ruint.Lemmas.GenConv2
 
 /-!
 # C07 — integer conversions accept exactly the representable range, preserving value
@@ -487,5 +488,46 @@ theorem gen_uint_from_uint_eq (bs ls bits : ℕ) (hN : nlimbs bits < 2 ^ 64) (sl
     ∧ Ruint.GenFls.toResO (Ruint.Gen.uint_checked_from_uint bs ls bits (nlimbs bits) sl) = Ruint.Canon.checkedFromLimbsSlice bits sl :=
   ⟨Ruint.GenFls.try_from_uint_eq bits hN sl hw, Ruint.GenFls.from_uint_eq bs ls bits hN sl hw,
    Ruint.GenFls.checked_from_uint_eq bs ls bits hN sl hw⟩
+
+/-! ### the rest of `src/from.rs` regenerated (`Gen/WordsConv2.lean`)
+
+The six signed `TryFrom` impls (`impl_from_signed_int!` instantiated per type) equal `tryFromSigned`; `from`, `saturating_from`,
+`wrapping_from` — as functions of the `Result` that the trait-dispatched `Self::uint_try_from(value)` yields (a declared
+rewrite) — equal the models whenever that result is the model's `tryFrom`; `wrapping_to` / `saturating_to` likewise over the
+`Result` of `self.uint_try_to()`. With the ties above every function of `src/from.rs` except the float conversions (C18) and
+`UintTryTo<Uint>` is tied to the source by translation. -/
+
+open Ruint.GenConv in
+theorem gen_try_from_signed_eq (bits : ℕ) (hN : nlimbs bits < 2 ^ 64) (v : ℤ) :
+    (-(2 ^ 7 : ℤ) ≤ v → v < 2 ^ 7 →
+      toToRes (Ruint.Gen.uint_try_from_i8 bits (nlimbs bits) (asUnsigned 8 v)) = tryFromSigned bits 8 v)
+    ∧ (-(2 ^ 15 : ℤ) ≤ v → v < 2 ^ 15 →
+      toToRes (Ruint.Gen.uint_try_from_i16 bits (nlimbs bits) (asUnsigned 16 v)) = tryFromSigned bits 16 v)
+    ∧ (-(2 ^ 31 : ℤ) ≤ v → v < 2 ^ 31 →
+      toToRes (Ruint.Gen.uint_try_from_i32 bits (nlimbs bits) (asUnsigned 32 v)) = tryFromSigned bits 32 v)
+    ∧ (-(2 ^ 63 : ℤ) ≤ v → v < 2 ^ 63 →
+      toToRes (Ruint.Gen.uint_try_from_i64 bits (nlimbs bits) (asUnsigned 64 v)) = tryFromSigned bits 64 v)
+    ∧ (-(2 ^ 63 : ℤ) ≤ v → v < 2 ^ 63 →
+      toToRes (Ruint.Gen.uint_try_from_isize bits (nlimbs bits) (asUnsigned 64 v)) = tryFromSigned bits 64 v)
+    ∧ (-(2 ^ 127 : ℤ) ≤ v → v < 2 ^ 127 →
+      toToRes (Ruint.Gen.uint_try_from_i128 bits (nlimbs bits) (asUnsigned 128 v)) = tryFromSigned bits 128 v) :=
+  ⟨Ruint.GenConv2.try_from_i8_eq bits hN v, Ruint.GenConv2.try_from_i16_eq bits hN v, Ruint.GenConv2.try_from_i32_eq bits hN v,
+   Ruint.GenConv2.try_from_i64_eq bits hN v, Ruint.GenConv2.try_from_isize_eq bits hN v, Ruint.GenConv2.try_from_i128_eq bits hN v⟩
+
+open Ruint.GenConv in
+theorem gen_from_family_eq (bits : ℕ) (hN : nlimbs bits < 2 ^ 64) (t : Prim) (v : ℤ)
+    (r : Except (ℕ × ℕ × List ℕ) (List ℕ)) (hr : toToRes (some r) = tryFrom bits t v)
+    (htag : ∀ e, r = .error e → e.1 ≤ 1) :
+    «from» bits t v = (match Ruint.Gen.uint_from_res bits (nlimbs bits) r with | some l => Ruint.Canon.Res.ok l | none => .panic)
+    ∧ saturatingFrom bits t v = Ruint.Canon.Res.ok (Ruint.Gen.uint_saturating_from_res bits (nlimbs bits) r)
+    ∧ wrappingFrom bits t v = Ruint.Canon.Res.ok (Ruint.Gen.uint_wrapping_from_res bits (nlimbs bits) r) :=
+  ⟨Ruint.GenConv2.from_eq bits t v r hr, Ruint.GenConv2.saturatingFrom_eq_of_tag bits hN t v r hr htag,
+   Ruint.GenConv2.wrappingFrom_eq_of_tag bits t v r hr htag⟩
+
+open Ruint.GenConv in
+theorem gen_to_family_eq (isBool : Bool) (t : Prim) (bits L : ℕ) (l : List ℕ) :
+    Ruint.Gen.uint_wrapping_to_res bits L (toPat t (tryTo isBool t bits l)) = asUnsigned t.width (wrappingTo isBool t bits l)
+    ∧ Ruint.Gen.uint_saturating_to_res bits L (toPat t (tryTo isBool t bits l)) = asUnsigned t.width (saturatingTo isBool t bits l) :=
+  ⟨Ruint.GenConv2.wrapping_to_eq isBool t bits L l, Ruint.GenConv2.saturating_to_eq isBool t bits L l⟩
 
 end Ruint.C07
